@@ -5,7 +5,7 @@
 // under test do under symbolic execution, and it is not what is being checked.
 // The two instantiations used by cppManifest.cxx are replaced here (catalogue:
 // cut=[...]) by a growth policy with the same observable behaviour: the first
-// push_back into an empty vector allocates room for VCAP elements in ONE typed
+// push_back into an empty vector allocates room for VCAP elements in ONE
 // allocation, later push_backs use the ordinary in-capacity fast path.  Running
 // out of the VCAP elements is an assertion failure, never silently ignored.
 #ifndef C08_FIXEDVEC_H
@@ -20,13 +20,15 @@
 #define VCAP 8
 #endif
 
+// (Measured: giving these allocations a struct type for the solver, so that the strings' fields stay separate, made
+// the extract_args query about twice as slow as the plain byte-array object; they are left untyped.)
 struct VerifStringSlots { std::string s[VCAP]; };
 struct VerifNodeSlots { CPPManifest::ExpansionNode s[VCAP]; };
 
 template<> template<>
 void std::vector<std::string>::_M_realloc_insert<std::string>(iterator pos, std::string &&x) {
   if (_M_impl._M_start != nullptr || pos.base() != _M_impl._M_finish) {
-    ASSERT(false, "harness: vector<string> grew beyond the VCAP elements reserved by c08_fixedvec.h");
+    ASSERT(false, "model: vector<string> grew beyond the VCAP elements reserved by harness/c08_fixedvec.h");
     ASSUME(false);
   }
   VerifStringSlots *sl = (VerifStringSlots *)::operator new(sizeof(VerifStringSlots));
@@ -40,7 +42,7 @@ void std::vector<std::string>::_M_realloc_insert<std::string>(iterator pos, std:
 template<> template<>
 void std::vector<CPPManifest::ExpansionNode>::_M_realloc_insert<CPPManifest::ExpansionNode>(iterator pos, CPPManifest::ExpansionNode &&x) {
   if (_M_impl._M_start != nullptr || pos.base() != _M_impl._M_finish) {
-    ASSERT(false, "harness: vector<ExpansionNode> grew beyond the VCAP elements reserved by c08_fixedvec.h");
+    ASSERT(false, "model: vector<ExpansionNode> grew beyond the VCAP elements reserved by harness/c08_fixedvec.h");
     ASSUME(false);
   }
   VerifNodeSlots *sl = (VerifNodeSlots *)::operator new(sizeof(VerifNodeSlots));
